@@ -247,7 +247,7 @@ void profile_resolve(Gen &g) {
 	if (fileobj) { Op w = g.mk(0, "write"); g.seti(w, "o", 0); g.set(w, "fmt", r.chance(1, 2) ? "LP" : "MPS"); g.set(w, "via", "path"); g.set(w, "path", "seed0"); g.seti(w, "comp", 0); p.ops.push_back(w);
 		Op rd = g.mk(0, "read"); g.seti(rd, "pick", -1); g.set(rd, "via", r.chance(1, 4) ? "reader" : "path"); p.ops.push_back(rd); oi = 1;
 		// the edits that change the matrix rebuild the row-wise copy; the ones that only touch a logical column or the vectors come first here
-		int k = r.range(1, 3); for (int t = 0; t < k; t++) { Op e = g.mk(0, "edit"); g.seti(e, "o", 1); static const char *w[] = {"chgsense", "chgsense", "chgsenses", "chgrange", "chgrhs", "chgbound", "chgobj"}; std::string what = w[r.below(7)]; g.set(e, "what", what);
+		int k = r.range(1, 3); for (int t = 0; t < k; t++) { Op e = g.mk(0, "edit"); g.seti(e, "o", 1); static const char *w[] = {"chgsense", "chgsense", "chgsenses", "chgrange", "chgrhs", "chgbound", "chgobj"}; std::string what = w[pure_add ? 4 + r.below(3) : r.below(7)];   /* a change of sense rebuilds the row copy too: the generation rounds want the reader's own */ g.set(e, "what", what);
 			g.seti(e, "i", r.below(30)); g.seti(e, "j", r.below(30)); g.set(e, "v", what == "chgrange" ? g.pos() : g.num()); g.set(e, "lu", std::string(1, "LUB"[r.below(3)])); g.set(e, "sense", std::string(1, "LGER"[r.below(4)])); g.set(e, "list", std::to_string(r.below(30)) + "," + std::to_string(r.below(30))); g.set(e, "senses", std::string(1, "LGER"[r.below(4)]) + std::string(1, "LGER"[r.below(4)])); p.ops.push_back(e); }
 		if (r.chance(1, 2)) { Op sc = g.mk(0, "param"); g.seti(sc, "o", 1); g.set(sc, "what", "scaling"); g.seti(sc, "v", 0); p.ops.push_back(sc); } }
 	int np = r.range(0, 2); for (int k = 0; k < np; k++) { Op o = g.gen_param(0); g.seti(o, "o", oi); p.ops.push_back(o); }
@@ -255,8 +255,9 @@ void profile_resolve(Gen &g) {
 	if (r.chance(1, 2)) { Op o = g.mk(0, "param"); g.seti(o, "o", oi); g.set(o, "what", "dprice"); g.seti(o, "v", r.below(4)); p.ops.push_back(o); }
 	if (r.chance(1, 2)) { Op o = g.mk(0, "param"); g.seti(o, "o", oi); g.set(o, "what", "pprice"); g.seti(o, "v", r.below(4)); p.ops.push_back(o); }
 	int rounds = g.longrun ? r.range(10, 40) : r.range(2, 8);
-	auto direct = [&]() { Op o = g.gen_solve(0, r.chance(1, 8) ? "exact" : r.chance(1, 2) ? "primal" : "dual"); g.seti(o, "o", oi); o.a.erase("warm"); return o; };
-	p.ops.push_back(direct());
+	bool no_exact = false;   // the exact driver's verdict functions drop the row copy: not before and not inside the generation rounds
+	auto direct = [&]() { Op o = g.gen_solve(0, !no_exact && r.chance(1, 8) ? "exact" : r.chance(1, 2) ? "primal" : "dual"); g.seti(o, "o", oi); o.a.erase("warm"); return o; };
+	no_exact = pure_add; p.ops.push_back(direct());
 	// column generation / cutting planes on a model file: the first rounds of half of the file-object plans only add columns (or only rows), so
 	// that whatever the reader built next to the column matrix is still the reader's when the simplex runs again, warm, on the grown problem
 	bool pure_cols = r.chance(2, 3); int pure_rounds = pure_add ? r.range(1, 3) : 0;
@@ -269,6 +270,7 @@ void profile_resolve(Gen &g) {
 				p.ops.push_back(e); }
 			p.ops.push_back(direct());
 			if (r.chance(1, 4) && g.ok("tableau")) { Op t = g.mk(0, "tableau"); g.seti(t, "o", oi); p.ops.push_back(t); }
+			if (k + 1 == pure_rounds) no_exact = false;
 			continue;
 		}
 		int ne = r.chance(2, 3) ? 1 : r.range(2, 3);
